@@ -227,6 +227,9 @@ impl Property for C13 {
     fn id(&self) -> &'static str {
         "C13"
     }
+    fn level(&self) -> &'static str {
+        "fault_enumeration"
+    }
     fn rule(&self) -> String {
         "well-formed SEM programs (see C05; no probes) must produce no diagnostic in any file; then one fault is seeded per case (see the fault classes in the family names) and >=1 diagnostic must intersect the seeded site in the seeded file, and no diagnostic may appear in files the fault does not touch. distinct = (seed, n, fault); non-trivial = program with >=3 declaration kinds and >=1 bang operator (clean), or any seeded case".into()
     }
